@@ -30,6 +30,7 @@ RULE = (
     "assignment, costs, species mapping, syntenies, ordered flag equal; events and recounted cost of both objects equal and equal to the package "
     "cost; to_dict of the parsed-back object == first dictionary.  Non-trivial: a colour, an infinite cost or a labelled output is involved and "
     "the object tree has >=2 leaves; distinct by SHA-1 of the case."
+    '  Also: ancestral objects named like leaves of a species, misleading leaf names, alternative family names (digit-leading, natural/string order differing), colour strings that are not six hex digits, the prescribed-root entry of leaf_syntenies in SuperReconciliationInput round trips.'
 )
 ASSUMPTIONS = ["unique non-empty node names over letters, digits, underscores; not 'NoName'", "costs are ints or float('inf')"]
 BUDGET = {"quick": {"random": 2500}, "thorough": {"random": 40000}}
